@@ -193,6 +193,9 @@ func runHistory(h []action, tape vsched.Tape) (res result) {
 		if d := r.MainThread().VerifGoFunctionCallDepth(); d != 0 {
 			invariant = append(invariant, fmt.Sprintf("go-call-depth (=%d after the call returned)", d))
 		}
+		if d := r.MainThread().VerifReentrantCallDepth(); d != 0 {
+			invariant = append(invariant, fmt.Sprintf("reentrant-call-depth (=%d after the call returned)", d))
+		}
 		if d := r.MainThread().VerifCloseStackSize(); d != 0 {
 			invariant = append(invariant, fmt.Sprintf("close-stack (=%d after the call returned)", d))
 		}
